@@ -104,6 +104,14 @@ Theorem C19_latin1_current :
                     /\ decode_input (IBytes bs None) <> latin1_decode bs).
 Proof. exact decode_latin1_current. Qed.
 
+(* The documented clause at full strength on the current tree: bytes that are not UTF-8 decode as Latin-1.  The proof
+   computes the fallback codec named in the source (regenerated Gen/Frontends.v): it fails to check as soon as the source
+   names another codec. *)
+Theorem C19_latin1 : forall bs e,
+  utf8_decode bs = Err e -> decode_input (IBytes bs None) = latin1_decode bs.
+Proof. exact (decode_latin1_if_fb_latin1 : forall bs e, utf8_decode bs = Err e ->
+                decode_input_with Frontends.fe_fallback (IBytes bs None) = latin1_decode bs). Qed.
+
 Print Assumptions C19_str.
 Print Assumptions C19_stream.
 Print Assumptions C19_utf8_noenc.
@@ -125,3 +133,4 @@ Print Assumptions C19_latin1_refuted_escape.
 Print Assumptions C19_latin1_refuted.
 Print Assumptions C19_latin1_if_fixed.
 Print Assumptions C19_latin1_current.
+Print Assumptions C19_latin1.
